@@ -73,7 +73,8 @@ def make_agent(i, a):
     a = {**AG_DEFAULT, **a}
     cls = agent_class(a["moving"], a["attacking"], a["has_ammo"], a["has_orient"], a["observing"])
     # ids deliberately not in lexicographic order (see stub_sim.py)
-    kw = dict(id=aid(i), encoding=a["enc"], blocking=a["blocking"])
+    # (a NEW int object per agent: equal encodings above 256 are then not the same object, as when computed per agent)
+    kw = dict(id=aid(i), encoding=int(str(a["enc"])), blocking=a["blocking"])
     if a["init_pos"] is not None:
         kw["initial_position"] = np.array(a["init_pos"])
     if a["init_health"] is not None:
